@@ -50,12 +50,14 @@ Fixpoint cv_ops (s : cstate) (ops : list sexp) : list sexp :=
   | _ :: r => serr 99 :: cv_ops s r
   end.
 
-(* input: (vars eqs units next-quantity-id ops) *)
+(* input: (vars eqs units next-quantity-id ops); output: one entry per conversion, then a LAST entry (2 b) with
+   b = wf_state of the initial state (the only premise of C06_sequence_equiv_from_wf) *)
 (* @run 60 run_convertvar *)
 Definition run_convertvar (x : sexp) : sexp :=
   match x with
   | L [vs; es; us; qn; ops] =>
-      L (cv_ops {| cvars := map cvar_of_sexp (sL vs); ceqs := map ceq_of_sexp (sL es);
-                   cunits := map uvec_of_sexp (sL us); cqnext := sZ qn |} (sL ops))
+      let s0 := {| cvars := map cvar_of_sexp (sL vs); ceqs := map ceq_of_sexp (sL es);
+                   cunits := map uvec_of_sexp (sL us); cqnext := sZ qn |} in
+      L (cv_ops s0 (sL ops) ++ [L [A 2; sbool (wf_state s0)]])
   | _ => serr 97
   end.
